@@ -2,7 +2,7 @@
 from ..framework import rule
 from ..core import *
 from ..lib import *
-from ..wirelib import ret_origin
+from ..wirelib import ret_origin, inline_closures
 from .c04 import const_int
 from .c14 import untuple
 from .c12 import _resolve_upvar
@@ -124,7 +124,7 @@ def r20_2(ctx):
             if s[0] == 'a':
                 labs = Body.field_labels(b.norm(s[1])[1])
                 if labs and labs[-1] in (f"{SFR}.fragn_size", f"{SFR}.datagram_offset", f"{FR}.sent_bytes", f"{SFR}.datagram_size", f"{FR}.packet_len"):
-                    vals[labs[-1].rsplit('.', 1)[-1]] = (bi, untuple(simplify(F.origin.rvalue(b, s[2], bi, si, 0, None))))
+                    vals[labs[-1].rsplit('.', 1)[-1]] = (bi, untuple(simplify(inline_closures(F, F.origin.rvalue(b, s[2], bi, si, 0, None)))))
     for k in ('fragn_size', 'datagram_offset', 'sent_bytes', 'datagram_size'):
         ctx.need(k in vals, f"store to {k} in dispatch_sixlowpan")
     if _is_mul8_div8(vals['fragn_size'][1]):
